@@ -415,6 +415,13 @@ impl Genesis {
         let flat = if cfg.flat_sol_fees { 10_000 } else { 0 };
         let liq_flat = if cfg.flat_sol_fees { 5_000 } else { 0 };
         let max_liq_fee = *rng.pick(&[0.0, 0.02, 0.05, 0.1, 0.25]);
+        // program fee: fixed and rate-proportional part present or absent independently (a
+        // fixed-only or rate-only program fee is a legal configuration nothing validates against)
+        let (pf_fixed, pf_rate) = if cfg.program_fees {
+            *rng.pick(&[(0.01, 0.025), (0.01, 0.025), (0.01, 0.0), (0.0, 0.025), (0.002, 0.3)])
+        } else {
+            (0.0, 0.0)
+        };
         run(
             sim,
             Tx::one(
@@ -425,8 +432,8 @@ impl Genesis {
                     fee_wallet,
                     flat,
                     liq_flat,
-                    w(if cfg.program_fees { 0.01 } else { 0.0 }),
-                    w(if cfg.program_fees { 0.025 } else { 0.0 }),
+                    w(pf_fixed),
+                    w(pf_rate),
                     w(max_liq_fee),
                 ),
             ),
